@@ -1141,8 +1141,77 @@ def search(rng, budget_s, broken):
     return None
 
 
+KNOWN_STOCHASTIC = "stochastic-network-json-drops-queue"
+FINDING_FILES = {KNOWN_ZERO_STAY: "coq/Props/C09_findings.v",
+                 KNOWN_STOCHASTIC: "coq/Props/C09_findings_stochastic.v"}
+
+
+def replay_stochastic(entry):
+    """the witness of the open finding `stochastic-network-json-drops-queue` (found by the C19 check): a simulation
+    on contrib.acnsim.StochasticNetwork, interrupted while an EV waits, resumed (a) in place and (b) after a JSON
+    round trip.  Returns what still fails (None if repaired)."""
+    import random
+    from acnportal.acnsim import Simulator, EventQueue, PluginEvent
+    from acnportal.acnsim.models import EV, EVSE, Battery
+    from acnportal.algorithms import UncontrolledCharging
+    from acnportal.contrib.acnsim import StochasticNetwork
+
+    def make(k):
+        net = StochasticNetwork(early_departure=True)
+        net.register_evse(EVSE("S0", max_rate=32), 240, 0)
+        evs = [EV(0, 8, 2.0, "x", "first", Battery(100, 0, 7)), EV(1, 7, 5.0, "x", "second", Battery(100, 0, 7))]
+        return Simulator(net, Crashing(UncontrolledCharging(), k, []), EventQueue([PluginEvent(e.arrival, e) for e in evs]),
+                         datetime.datetime(2020, 1, 1), period=5, verbose=False)
+
+    def summary(sim):
+        n = sim.network
+        return dict(iter=int(sim._iteration), swaps=n.swaps, never_charged=n.never_charged, early_unplug=n.early_unplug,
+                    energy=[[k, norm(v.energy_delivered)] for k, v in sim.ev_history.items()],
+                    rates=norm(sim.charging_rates), pilots=norm(sim.pilot_signals),
+                    ehist=[[e.event_type, int(e.timestamp)] for e in sim.event_history])
+    try:
+        random.seed(0)
+        ref = make(None)
+        ref.run()
+        want = summary(ref)
+        random.seed(0)
+        a = make(2)
+        try:
+            a.run()
+            return "the witness no longer reaches the interruption point"
+        except INTERRUPTS:
+            pass
+        waiting = list(a.network.waiting_queue.keys())
+        text = a.to_json()
+        st = random.getstate()
+        a.run()
+        d = first_diff(want, summary(a))
+        if d:
+            return "StochasticNetwork witness: in-memory resume differs from the uninterrupted run in %s" % d
+        random.setstate(st)
+        b = Simulator.from_json(text)
+        b.update_scheduler(Crashing(UncontrolledCharging(), None, []))
+        lost = []
+        if list(getattr(b.network, "waiting_queue", {}).keys()) != waiting:
+            lost.append("waiting_queue %s -> %s" % (waiting, list(getattr(b.network, "waiting_queue", {}).keys())))
+        if getattr(b.network, "early_departure", None) is not True:
+            lost.append("early_departure True -> %s" % getattr(b.network, "early_departure", None))
+        try:
+            b.run()
+        except Exception as e:   # noqa
+            return "loaded simulator lost %s; run() raised %s: %s" % ("; ".join(lost) or "nothing visible", type(e).__name__, e)
+        d = first_diff(want, summary(b))
+        if d or lost:
+            return "loaded simulator lost %s; resumed run differs in %s" % ("; ".join(lost) or "nothing visible", d)
+        return None
+    except Exception as e:   # noqa
+        return "StochasticNetwork witness could not be run: %s: %s" % (type(e).__name__, e)
+
+
 def replay_known(entry):
     """re-run the witness of an open known finding; returns what still fails (None if repaired)"""
+    if entry.get("sig") == KNOWN_STOCHASTIC:
+        return replay_stochastic(entry)
     w = entry.get("witness")
     if not w:
         return "not re-checked"
@@ -1150,22 +1219,23 @@ def replay_known(entry):
 
 
 def _open_finding_files():
-    """Props/C09_findings.v holds the _refuted witnesses of the open findings; it is compiled only
-    while an entry is open and its witness still fails on the implementation (DESIGN 4.5)"""
+    """Props/C09_findings*.v hold the _refuted theorems of the open findings; each is compiled only while its
+    entry is open and its witness still fails on the implementation (DESIGN 4.5)"""
     from harness import core
+    out = []
     try:
         for e in core.known_findings(PID):
-            if e.get("status") == "open" and replay_known(e):
-                return ("coq/Props/C09_findings.v",)
+            f = FINDING_FILES.get(e.get("sig"))
+            if e.get("status") == "open" and f and replay_known(e):
+                out.append(f)
     except Exception:   # noqa
-        return ("coq/Props/C09_findings.v",)
-    return ()
+        return tuple(FINDING_FILES.values())
+    return tuple(out)
 
 
 EXTRA_PROP_FILES = _open_finding_files()
-if EXTRA_PROP_FILES:
-    # its dependencies must be rebuilt by make whenever Gen/ changes
-    TARGETS = TARGETS + ["coq/Props/C09_findings.vo"]
+# their dependencies must be rebuilt by make whenever Gen/ changes
+TARGETS = TARGETS + [f[:-2] + ".vo" for f in EXTRA_PROP_FILES]
 
 
 if __name__ == "__main__":
